@@ -22,6 +22,16 @@ PROPS = {
             'introduce_variables/apply_simp symbolic contracts'),
     'C13': ('contracts.c13', 'exploration',
             'reduplicate on DAGs (bounded native) + call-site obligations'),
+    'C02': ('contracts.c02', 'proof',
+            'hierarchical reduce: a pass is left only after an unsuccessful '
+            'fresh sweep (loop invariants over all schedules)'),
+    'C05': ('contracts.c05', 'proof',
+            'chain of accepted inputs, no stale adoption: loop invariants '
+            'over both strategies with havocked completion orders'),
+    'C01': ('contracts.c01', 'proof',
+            'every write is of an accepted list, result is last written, '
+            'only the output file is written (loop invariants, all '
+            'schedules)'),
 }
 
 
